@@ -100,6 +100,7 @@ type Step struct {
 	B  []byte   `json:"b,omitempty"`
 	F  bool     `json:"f,omitempty"`
 	G  bool     `json:"g,omitempty"`
+	W  bool     `json:"w,omitempty"` // E1: apply the next step in the same driver turn (no quiescence in between)
 }
 
 type Case struct {
@@ -107,7 +108,7 @@ type Case struct {
 	Profile string           `json:"profile"`
 	Build   string           `json:"build"` // maporder | lockstep
 	Variant string           `json:"variant,omitempty"`
-	Seed    uint64           `json:"seed"`  // per-run seed: keyed network decisions, ids, schedules
+	Seed    uint64           `json:"seed"` // per-run seed: keyed network decisions, ids, schedules
 	Knobs   map[string]int64 `json:"knobs,omitempty"`
 	Steps   []Step           `json:"steps"`
 	// Sched is the forced schedule of the lockstep engine (task index per yield); empty = PRNG
@@ -167,7 +168,7 @@ type Outcome struct {
 	Cover       map[string]bool // property-specific coverage items (e.g. judged (filter, topic) pairs)
 }
 
-func newOutcome() *Outcome { return &Outcome{Stats: map[string]int64{}} }
+func newOutcome() *Outcome           { return &Outcome{Stats: map[string]int64{}} }
 func (o *Outcome) probe(name string) { o.Stats[name]++ }
 func (o *Outcome) cover(item string) {
 	if o.Cover == nil {
